@@ -6,7 +6,7 @@ from vf.rustcut import SourceFile, Undecided
 
 NAME = "U-plusplus"
 TOOL = "kani"
-PROPS = ["C01", "C17", "C15", "C06"]
+PROPS = ["C01", "C17", "C15", "C06", "C16"]
 TRUSTED = ["kani 0.68 / cbmc 6.11 (all 16-bit cell values, all register values: complete for the straight-line sequences emitted)",
            "A-isa: INC/DEC/INX/DEX/INY/DEY/LDA/PHA/PLA/BNE semantics incl. N/Z (in the harness interpreter)"]
 
@@ -26,8 +26,9 @@ pub enum FlagsState { Unknown, A, X, Y, Absolute(String, bool, i32), AbsoluteX(S
 pub struct Error { pub e: u8 }
 pub struct Variable { pub var_type: VariableType, pub memory: VariableMemory, pub var_const: bool, pub signed: bool, pub size: usize }
 pub struct CompilerState { pub v: Variable }
+pub static mut UNCHECKED_LOOKUP: bool = false;
 impl CompilerState {
-    pub fn get_variable(&self, _name: &str) -> &Variable { &self.v }
+    pub fn get_variable(&self, _name: &str) -> &Variable { unsafe { UNCHECKED_LOOKUP = true; } &self.v }      // the lookup that unwraps: panics on a name that is not a variable
     pub fn syntax_error(&self, _m: &str, _loc: usize) -> Error { Error { e: 0 } }
 }
 #[derive(Copy, Clone, PartialEq)]
@@ -48,6 +49,7 @@ impl<'a> GeneratorState<'a> {
         self.push(Rec::Ins(m, k)); Ok(false)
     }
     pub fn label(&mut self, _l: &str) -> Result<(), Error> { self.push(Rec::Label); Ok(()) }
+    pub(crate) fn variable_or_error(&self, _name: &str, _pos: usize) -> Result<&'a Variable, Error> { Ok(&self.compiler_state.v) }      // the operand's variable is declared (the error path: U-frame scan + bounded no-panic list)
     // the general add/assign path (load, add 1, store) is not interpreted here: only recorded
     // (their effect on the flags belief is the one their own contracts state -- U-arithm: the result is in A and the flags describe it; U-assign: a stored low byte is
     //  what the flags describe, after the high byte nothing is claimed)
@@ -124,6 +126,17 @@ H16 = """    #[kani::proof] #[kani::unwind(12)]
         if acc_live { assert!(m.a == m0.a); }                       // a live accumulator survives
         // the generator's belief about N/Z: if it claims the flags describe the variable, Z must tell whether the whole value is zero
         if g.flags != FlagsState::Unknown { assert!(m.z == (after == 0)); }
+    }
+"""
+HLOOK = """    #[kani::proof] #[kani::unwind(12)]
+    fn %(name)s() {      // %(what)s
+        let cs = CompilerState { v: Variable { var_type: VariableType::%(vt)s, memory: VariableMemory::Zeropage, var_const: false, signed: false, size: 1 } };
+        let mut g = new_state(&cs, kani::any());
+        let operand = %(operand)s;
+        let _ = g.generate_plusplus(&operand, 77, kani::any());
+        // the operand's name may be one the expression parser made up for a literal it did not register (`a[++"s"]`): it is looked up with
+        // variable_or_error (an error), never with get_variable (unwrap)
+        assert!(unsafe { !UNCHECKED_LOOKUP });
     }
 """
 HPOS = """    #[kani::proof] #[kani::unwind(12)]
@@ -244,6 +257,9 @@ def build(repo):
     for nm_, vt_, op_ in (("short", "Short", abs16), ("char", "Char", abs8), ("shortptr_x", "ShortPtr", absx), ("charptr_x", "CharPtr", absx)):
         add("pp_positions_%s" % nm_, HPOS % {"name": "pp_positions_%s" % nm_, "what": "%s: positions handed to asm()" % nm_, "vt": vt_, "operand": op_}, ["C06", "C01"], "plusplus-%s-instructions-carry-the-statement-position" % nm_.replace("_", "-"),
             "++/-- of a %s: every instruction emitted on the variable is given the statement's position (asm() reports its errors there)" % nm_, cfgs=(None,))
+    for nm_, vt_, op_ in (("absolute", "Short", abs16), ("x_indexed", "ShortPtr", absx), ("y_indexed", "CharPtr", 'ExprType::AbsoluteY("v".to_string())')):
+        add("pp_lookup_%s" % nm_, HLOOK % {"name": "pp_lookup_%s" % nm_, "what": "%s operand: how its variable is looked up" % nm_, "vt": vt_, "operand": op_}, ["C16"], "plusplus-%s-operand-looked-up-without-unwrap" % nm_.replace("_", "-"),
+            "++/-- of an %s operand: the variable is looked up with variable_or_error" % nm_, cfgs=(None,))
     add("pp_element_y_width", H18 % {"name": "pp_element_y_width"}, ["C01", "C15"], "plusplus-y-indexed-element-width", "++/-- of v[Y]: one byte pass for an array of chars, low then high for an array of shorts / of pointers (as with an X index or a constant index)")
     add("pp_splitport_element_x_width", H18S % {"name": "pp_splitport_element_x_width", "reg": "X", "operand": absx}, ["C17", "C01", "C15"], "splitport-x-indexed-element-width",
         "cfg atari2600: ++/-- of v[X] in split-port RAM: one byte pass for an array of chars, low then high for an array of shorts / of pointers", cfgs=("atari2600",))
